@@ -584,6 +584,7 @@ TABLE = {
 # ---------------------------------------------------------------------------
 # server-level properties (closed loop over real sockets)
 # ---------------------------------------------------------------------------
+ABS_PROOF = [("server_abs", ["ServerAbs.tla", "ServerAbs_proofs.tla"], "ServerAbs_proofs.tla")]
 def srv_cfg(kind):
     maxconn, buf = (10, 1024) if kind == "full" else (3, 32)
     return """SPECIFICATION Spec
@@ -767,11 +768,21 @@ SRV_RULES = {
     "C18": "one case = one history with the kill switch signalled at a random point; non-trivial = the signal was sent; distinct by hash of the step sequence",
 }
 
-def srv_property(pid, tier, seed, models, drivers, assumptions, design_ref):
+def srv_property(pid, tier, seed, models, drivers, assumptions, design_ref, proofs=()):
     t0 = time.time()
     known = [k for k in V.load_known() if k["property"] == pid]
     violations, known_hits, oop = [], [], 0
     mres = []
+    # 0. unbounded part: TLAPS proof of the inductive invariant of the abstract server (any number of
+    #    clients / descriptors / capacity); the models below check that the detailed model refines it
+    pres = []
+    for (pname, modules, main) in proofs:
+        pr = V.run_proof(pname, modules, main)
+        pres.append(pr)
+        if not pr["ok"]:
+            path = V.save_replay(pid, {"property": pid, "level": "model", "model": pname, "violated": "%d unproved obligations" % pr["failed"],
+                                       "log": "work/tlapm-%s.log" % pname})
+            violations.append(("proof:%s" % pname, path))
     for mname in models:
         module, cfg, tmo, need = MODELS[mname]
         r = V.run_model(mname, module, cfg, tmo, need=need)
@@ -838,6 +849,8 @@ def srv_property(pid, tier, seed, models, drivers, assumptions, design_ref):
         "evaluations": evals,
         "distinct_nontrivial": len(distinct),
         "rule": SRV_RULES[pid],
+        "proofs": [{"name": p["name"], "module": p["module"], "prover": "tlapm", "obligations_proved": p["obligations"] - p["failed"],
+                    "obligations_failed": p["failed"], "reused_from_cache": p.get("cached", False)} for p in pres],
         "exhaustive": False,
         "models": [{"name": r["name"], "cfg": r["cfg"], "distinct_states": r["distinct"], "states_generated": r["states_generated"],
                     "depth": r["depth"], "witnesses_reached": r["witnesses"], "reused_from_cache": r.get("cached", False), "wall_s": r.get("wall_s")} for r in mres],
@@ -874,9 +887,9 @@ SRV_ASSUME = [
 ]
 
 TABLE.update({
-    "C07": lambda tier, seed: srv_property("C07", tier, seed, ["srv_quick", "srv_race", "srv_capq"] + (["srv_cap"] if tier == "thorough" else []), [("full", "C07", 300, 3000), ("small", "C07", 300, 3000), ("full", "C07pipe", 200, 2000), ("gen", "Gen_Srv_rogue.cfg", 0, 0)], SRV_ASSUME, "DESIGN.md 6 C07"),
+    "C07": lambda tier, seed: srv_property("C07", tier, seed, ["srv_quick", "srv_race", "srv_capq"] + (["srv_cap"] if tier == "thorough" else []), [("full", "C07", 300, 3000), ("small", "C07", 300, 3000), ("full", "C07pipe", 200, 2000), ("gen", "Gen_Srv_rogue.cfg", 0, 0)], SRV_ASSUME, "DESIGN.md 6 C07", proofs=ABS_PROOF),
     "C09": lambda tier, seed: srv_property("C09", tier, seed, ["srv_quick", "srv_race", "srv_capq"] + (["srv_cap", "srv_livew"] if tier == "thorough" else []), [("full", "C09", 300, 3000), ("small", "C09", 200, 2000), ("small", "C10", 200, 2000), ("full", "C09slow", 40, 400), ("gen", "Gen_Srv_rogue.cfg", 0, 0)], SRV_ASSUME, "DESIGN.md 6 C09"),
-    "C10": lambda tier, seed: srv_property("C10", tier, seed, ["srv_capq"] + (["srv_cap"] if tier == "thorough" else []), [("small", "C10", 300, 3000), ("full", "C10", 150, 1500)], SRV_ASSUME, "DESIGN.md 6 C10"),
+    "C10": lambda tier, seed: srv_property("C10", tier, seed, ["srv_capq"] + (["srv_cap"] if tier == "thorough" else []), [("small", "C10", 300, 3000), ("full", "C10", 150, 1500)], SRV_ASSUME, "DESIGN.md 6 C10", proofs=ABS_PROOF),
     "C18": lambda tier, seed: srv_property("C18", tier, seed, ["srv_kill"], [("full", "C18", 300, 3000), ("small", "C18", 200, 2000)], SRV_ASSUME, "DESIGN.md 6 C18"),
     "C08": lambda tier, seed: srv_property("C08", tier, seed, ["srv_quick", "srv_progs", "srv_live"], [("full", "C08", 300, 3000), ("small", "C08", 200, 2000), ("full", "C08big", 24, 400), ("gen", "Gen_Srv_good.cfg", 0, 0)], SRV_ASSUME, "DESIGN.md 6 C08"),
 })
